@@ -1,7 +1,6 @@
 use std::iter::once;
 
 use crate::bound::{Bounds, WhereClauseBuilder};
-use crate::syn_utils::ref_target;
 use proc_macro2::{Span, TokenStream, TokenTree};
 use quote::{quote, quote_spanned, ToTokens};
 use structmeta::{Flag, ToTokens};
@@ -237,7 +236,6 @@ fn build_partial_eq_expr(
     wcb: &mut WhereClauseBuilder,
 ) -> Result<TokenStream> {
     let op = CompareOp::PartialEq;
-    let ty = &ref_target(&field.field.ty);
     let fn_ident = field.make_ident("__eq_");
     let this = source.self_of(field);
     let other = source.other_of(field);
@@ -247,7 +245,7 @@ fn build_partial_eq_expr(
     let build_expr_by_eq = |by: &Expr| {
         quote! {
             {
-                fn #fn_ident(this: &#ty, other: &#ty, eq: impl ::core::ops::Fn(&#ty, &#ty) -> bool) -> bool {
+                fn #fn_ident<__T: ?::core::marker::Sized>(this: &__T, other: &__T, eq: impl ::core::ops::Fn(&__T, &__T) -> bool) -> bool {
                     eq(this, other)
                 }
                 #fn_ident(&#this, &#other, #by)
@@ -274,7 +272,7 @@ fn build_partial_eq_expr(
     if let Some(by) = &cmp.partial_ord.by {
         return Ok(quote! {
             {
-                fn #fn_ident(this: &#ty, other: &#ty, partial_cmp: impl Fn(&#ty, &#ty) -> ::core::option::Option<::core::cmp::Ordering>) -> bool {
+                fn #fn_ident<__T: ?::core::marker::Sized>(this: &__T, other: &__T, partial_cmp: impl ::core::ops::Fn(&__T, &__T) -> ::core::option::Option<::core::cmp::Ordering>) -> bool {
                     partial_cmp(this, other) == ::core::option::Option::Some(::core::cmp::Ordering::Equal)
                 }
                 #fn_ident(&#this, &#other, #by)
@@ -289,7 +287,7 @@ fn build_partial_eq_expr(
     if let Some(by) = &field.hattrs.cmp.ord.by {
         return Ok(quote! {
             {
-                fn #fn_ident(this: &#ty, other: &#ty, cmp: impl ::core::ops::Fn(&#ty, &#ty) -> ::core::cmp::Ordering) -> bool {
+                fn #fn_ident<__T: ?::core::marker::Sized>(this: &__T, other: &__T, cmp: impl ::core::ops::Fn(&__T, &__T) -> ::core::cmp::Ordering) -> bool {
                     cmp(this, other) == ::core::cmp::Ordering::Equal
                 }
                 #fn_ident(&#this, &#other, #by)
@@ -502,7 +500,6 @@ fn build_partial_ord_expr(
     wcb: &mut WhereClauseBuilder,
 ) -> Result<TokenStream> {
     let op = CompareOp::PartialOrd;
-    let ty = &ref_target(&field.field.ty);
     let fn_ident = field.make_ident("__partial_ord_");
     let this = source.self_of(field);
     let other = source.other_of(field);
@@ -512,10 +509,10 @@ fn build_partial_ord_expr(
     if let Some(by) = &cmp.partial_ord.by {
         return Ok(quote! {
             {
-                fn #fn_ident(
-                    this: &#ty,
-                    other: &#ty,
-                    partial_cmp: impl Fn(&#ty, &#ty) -> ::core::option::Option<::core::cmp::Ordering>)
+                fn #fn_ident<__T: ?::core::marker::Sized>(
+                    this: &__T,
+                    other: &__T,
+                    partial_cmp: impl ::core::ops::Fn(&__T, &__T) -> ::core::option::Option<::core::cmp::Ordering>)
                  -> ::core::option::Option<::core::cmp::Ordering> {
                     partial_cmp(this, other)
                 }
@@ -531,10 +528,10 @@ fn build_partial_ord_expr(
     if let Some(by) = &cmp.ord.by {
         return Ok(quote! {
             {
-                fn #fn_ident(
-                    this: &#ty,
-                    other: &#ty,
-                    cmp: impl Fn(&#ty, &#ty) -> ::core::cmp::Ordering)
+                fn #fn_ident<__T: ?::core::marker::Sized>(
+                    this: &__T,
+                    other: &__T,
+                    cmp: impl ::core::ops::Fn(&__T, &__T) -> ::core::cmp::Ordering)
                  -> ::core::option::Option<::core::cmp::Ordering> {
                     ::core::option::Option::Some(cmp(this, other))
                 }
@@ -642,7 +639,6 @@ fn build_ord_expr(
     wcb: &mut WhereClauseBuilder,
 ) -> Result<TokenStream> {
     let op = CompareOp::Ord;
-    let ty = &ref_target(&field.field.ty);
     let fn_ident = field.make_ident("__ord_");
     let this = source.self_of(field);
     let other = source.other_of(field);
@@ -652,10 +648,10 @@ fn build_ord_expr(
     if let Some(by) = &cmp.ord.by {
         return Ok(quote! {
             {
-                fn #fn_ident(
-                    this: &#ty,
-                    other: &#ty,
-                    cmp: impl Fn(&#ty, &#ty) -> ::core::cmp::Ordering)
+                fn #fn_ident<__T: ?::core::marker::Sized>(
+                    this: &__T,
+                    other: &__T,
+                    cmp: impl ::core::ops::Fn(&__T, &__T) -> ::core::cmp::Ordering)
                  -> ::core::cmp::Ordering {
                     cmp(this, other)
                 }
@@ -742,7 +738,6 @@ fn build_hash_expr(
     wcb: &mut WhereClauseBuilder,
 ) -> Result<TokenStream> {
     let op = CompareOp::Hash;
-    let ty = &ref_target(&field.field.ty);
     let fn_ident = field.make_ident("__hash_");
     let this = source.self_of(field);
     let cmp = &field.hattrs.cmp;
@@ -751,10 +746,10 @@ fn build_hash_expr(
     if let Some(by) = &cmp.hash.by {
         return Ok(quote! {
             {
-                fn #fn_ident<H: ::core::hash::Hasher>(
-                    this: &#ty,
-                    state: &mut H,
-                    hash: impl Fn(&#ty, &mut H)) {
+                fn #fn_ident<__T: ?::core::marker::Sized, __H: ::core::hash::Hasher>(
+                    this: &__T,
+                    state: &mut __H,
+                    hash: impl ::core::ops::Fn(&__T, &mut __H)) {
                     hash(this, state)
                 }
                 #fn_ident(&#this, state, #by)
